@@ -308,6 +308,8 @@ var verifBackup struct {
 	attempts    int
 	lastGoodGen uint64
 	readGen     uint64
+	raceRead    int // 0: never; k: a write lands just before the k-th file read
+	reads       int
 }
 
 func verifStubWriteGen(d *db.DB) uint64 {
@@ -334,6 +336,11 @@ func verifStubDBPath(d *db.DB) string { return "/state/setec.db" }
 func verifStubReadFileBackup(name string) ([]byte, error) {
 	verifBackup.attempts++
 	assert("no-upload-without-a-change-since-the-last-good-backup", verifBackup.mustUpload)
+	verifBackup.reads++
+	if verifBackup.reads == verifBackup.raceRead {
+		verifBackup.curGen++ // the write is in the file this read returns, but not in the generation the loop sampled
+		ghostLog("db.written.between.generation.read.and.file.read")
+	}
 	verifBackup.readGen = verifBackup.curGen
 	if nondetBool("readfile.fail") {
 		return nil, verifErrInjected
